@@ -115,7 +115,13 @@ def run(pid, rep):
   killed = [r for r in breaks if r['exit'] == 1]
   missed = [r for r in breaks if r['exit'] != 1]
   silent = [r for r in keeps if r['exit'] == 0]
-  noisy = [r for r in keeps if r['exit'] != 0]
+  # a stored refactor (refactors/<name>) may leave a check inconclusive
+  # (exit 2: construct outside the evaluated forms, no VIOLATION line); that
+  # is recorded, only an alarm (exit 1) on it fails the self-validation.
+  # Hand-written single-edit keep variants must stay at exit 0.
+  undecided = [r for r in keeps if r['exit'] == 2 and
+               str(r['file']).startswith('refactors/')]
+  noisy = [r for r in keeps if r['exit'] != 0 and r not in undecided]
   ok = not missed and not noisy
   path = os.path.join(EVIDENCE_DIR, pid + '.json')
   if os.path.exists(path) and not os.environ.get('MLSTATIC_NOEVIDENCE'):
@@ -126,6 +132,7 @@ def run(pid, rep):
         behaviour_preserving_variants=len(keeps), silent=len(silent),
         missed=[r.get('edit') for r in missed],
         false_alarms=[r.get('edit') for r in noisy],
+        inconclusive_on_stored_refactors=[r['file'] for r in undecided],
         samples=[dict(kind=r['kind'], file=r['file'], exit=r['exit'],
                       report=r['first']) for r in ran[:4]])
     ev['coverage']['evaluations'] = ev['coverage'].get('evaluations', 0) + \
@@ -133,9 +140,12 @@ def run(pid, rep):
     ev['wall_s'] = round(ev.get('wall_s', 0) + time.time() - t0, 3)
     json.dump(ev, open(path, 'w'), indent=1, default=str)
   print('%s thorough self-validation: %d variants (%d stale): breaking '
-        '%d/%d reported, behaviour-preserving %d/%d silent, wall=%.1fs'
+        '%d/%d reported, behaviour-preserving %d/%d silent (%d inconclusive '
+        'on stored refactors, 0 alarms required), wall=%.1fs'
         % (pid, len(res), len(stale), len(killed), len(breaks),
-           len(silent), len(keeps), time.time() - t0))
+           len(silent), len(keeps), len(undecided), time.time() - t0))
+  for r in undecided:
+    print('  inconclusive on %s: %s' % (r['file'], r['first'][:160]))
   for r in missed:
     print('ANALYSIS-ERROR self-validation: breaking variant not reported '
           '(exit %s): %s -> %s' % (r['exit'], r['edit'][0], r['edit'][1]))
